@@ -129,6 +129,17 @@ def apply_real(bl, op, a):
             out = nbrs(bl.get_bonds(int(a[0])))
         elif op == "contains":
             out = bool((int(a[0]), int(a[1])) in bl)
+        elif op == "independent":
+            how, x = a
+            if how == "index":
+                d = bl[to_index(x)]
+            elif how == "merge":
+                d = bl.merge(make(x[0], x[1]))
+            elif how == "concat":
+                d = bl + make(x[0], x[1])
+            else:
+                d = bl.copy()
+            out = _independent(bl, d)
         elif op == "views":
             out = views(bl)
         elif op == "copy":
@@ -143,6 +154,42 @@ def apply_real(bl, op, a):
         return bl, "IndexError", []
     except (ValueError, TypeError, NotImplementedError, OverflowError, MemoryError) as e:
         return bl, "Rejected", []
+
+
+def _poke(b):
+    """In-place writes through the public API."""
+    n = b.get_atom_count()
+    b.remove_bond_order()
+    if n >= 2:
+        b.add_bond(0, n - 1, 7)
+        b.remove_bonds_to(n // 2)
+    b.offset_indices(1)
+
+
+def _independent(src, derived):
+    """src and derived must be distinct objects sharing no state: write into a copy of the
+    derived object's *identity* (the object itself), look at the source, and the other way
+    round.  The source is restored from a snapshot afterwards."""
+    if derived is src:
+        return "same-object"
+    snap_src = src.copy()
+    before_src = (src.get_atom_count(), _sset(src.as_array().tolist()))
+    _poke(derived)
+    after_src = (src.get_atom_count(), _sset(src.as_array().tolist()))
+    if before_src != after_src:
+        # undo the damage on the real source so that the rest of the path is meaningful
+        src._bonds = snap_src._bonds
+        src._atom_count = snap_src._atom_count
+        return "source-changed-by-writing-into-derived"
+    before_d = (derived.get_atom_count(), _sset(derived.as_array().tolist()))
+    _poke(src)
+    after_d = (derived.get_atom_count(), _sset(derived.as_array().tolist()))
+    src._bonds = snap_src._bonds
+    src._atom_count = snap_src._atom_count
+    src._max_bonds_per_atom = snap_src._max_bonds_per_atom
+    if before_d != after_d:
+        return "derived-changed-by-writing-into-source"
+    return "independent"
 
 
 def project(bl):
@@ -174,6 +221,8 @@ def out_matches(op, a, exp, got):
         return _sset(got) == _sset(exp) and _nodup(got)
     if op == "contains":
         return bool(got) == bool(exp)
+    if op == "independent":
+        return got == exp
     if op == "views":
         if len(got["nb"]) != len(exp["nb"]):
             return False
@@ -322,7 +371,7 @@ def gen_trace(item):
         else:
             op = rng.choice(["add", "add", "add", "remove", "remove_to", "remove_bonds", "merge",
                              "concat", "rconcat", "offset", "strip_arom", "strip_order", "index",
-                             "index", "get_bonds", "contains", "views", "copy", "construct"])
+                             "index", "get_bonds", "contains", "views", "copy", "construct", "independent"])
             lo = -n if safe_only else -n - 2
             if op == "construct":
                 m = rng.randint(0, nmax)
@@ -349,6 +398,18 @@ def gen_trace(item):
                     continue
                 if a[0][0] == "mask" and rng.random() < 0.3:
                     a[0] = a[0] + ["strided"]     # realisation detail: a non-contiguous view
+            elif op == "independent":
+                how = rng.choice(["index", "index", "merge", "concat", "copy"])
+                if how == "index":
+                    x = _rand_index(rng, n)
+                    if x[0] == "int" or (x[0] == "mask" and rng.random() < 0.4):
+                        x = ["mask", [True] * n]
+                    a = [how, x]
+                elif how == "copy":
+                    a = [how, []]
+                else:
+                    m = rng.randint(0, 5)
+                    a = [how, [m, _rand_rows(rng, m, rng.randint(0, m + 1))]]
             elif op == "contains":
                 if n < 2:
                     continue
@@ -451,7 +512,8 @@ def run(ctx):
             labels.append(c)
         ops_seen[labels[lab_ix[lab]][1]] = ops_seen.get(labels[lab_ix[lab]][1], 0) + 1
     need = {"construct", "add", "remove", "remove_to", "remove_bonds", "merge", "concat", "rconcat",
-            "offset", "strip_arom", "strip_order", "index", "get_bonds", "contains", "views", "copy"}
+            "offset", "strip_arom", "strip_order", "index", "get_bonds", "contains", "views", "copy",
+            "independent"}
     missing = need - set(ops_seen)
     if missing:
         from harness.tlabind.core import Vacuity
